@@ -110,31 +110,31 @@ func (dm *DefGenMethod) reorg(edge int) int {
 func (dm *DefGenMethod) adjoin(b []byte) []byte {
 	b = append(b, "(defmethod"...)
 	if dm.name.newline() {
-		b = append(b, indent[:dm.name.left()+1]...)
+		b = newlineIndent(b, dm.name.left())
 	} else {
 		b = append(b, ' ')
 	}
 	b = dm.name.adjoin(b)
 	if dm.qual != nil {
 		if dm.qual.newline() {
-			b = append(b, indent[:dm.qual.left()+1]...)
+			b = newlineIndent(b, dm.qual.left())
 		} else {
 			b = append(b, ' ')
 		}
 		b = dm.qual.adjoin(b)
 	}
 	if dm.sll.newline() {
-		b = append(b, indent[:dm.sll.left()+1]...)
+		b = newlineIndent(b, dm.sll.left())
 	} else {
 		b = append(b, ' ')
 	}
 	b = dm.sll.adjoin(b)
 	if dm.doc != nil {
-		b = append(b, indent[:dm.doc.left()+1]...)
+		b = newlineIndent(b, dm.doc.left())
 		b = dm.doc.adjoin(b)
 	}
 	for _, n := range dm.children {
-		b = append(b, indent[:n.left()+1]...)
+		b = newlineIndent(b, n.left())
 		b = n.adjoin(b)
 	}
 	return append(b, ')')
